@@ -32,6 +32,7 @@ static void out_arr(std::ostream& os, const Array<2,real,false>& a) { os << "R";
 #define NAMES Array<1,real,false>& P0 = w.P0; Array<1,real,false>& Q0 = w.Q0; Array<2,real,false>& P1 = w.P1; Array<2,real,false>& Q1 = w.Q1; \
               Array<2,real,false>& P3 = w.P3; Array<3,real,false>& P2 = w.P2; Array<3,real,false>& Q2 = w.Q2; (void)Q2; (void)P0; (void)Q0; (void)P1; (void)Q1; (void)P3; (void)P2;
 #define RESULT(x) do { os << "R"; pr(os, (real)(x)); } while (0)
+#define RESULTI(x) do { intVector r_ = (x); os << "R"; for (int i_ = 0; i_ < r_.dimension(0); ++i_) pr(os, (real)r_(i_)); } while (0)
 '''
 
 MAIN = r'''
@@ -66,6 +67,9 @@ def source(stmts, ids, ty="double", extra_case_code=None):
         if s.kind == "reduce" and s.red == "sumdim":
             r = len(s.dims) - 1
             body = "{ Array<%d,real,false> r__; r__ = sum(%s,%d); out_arr(os, r__); }" % (r, G.cxx(s.e, ty), s.dim)
+        if s.kind == "reddim":
+            r = len(s.dims) - 1
+            body = "{ Array<%d,real,false> r__; r__ = %s(%s,%d); out_arr(os, r__); }" % (r, s.red, G.cxx(s.e, ty), s.dim)
         out.append("static void case_%d(World& w, std::ostream& os) { NAMES %s }" % (k, body))
     out.append("typedef void (*CaseFn)(World&, std::ostream&);")
     out.append("static CaseFn cases[] = {%s};" % ",".join("case_%d" % k for k in range(len(stmts))))
